@@ -11,7 +11,7 @@ from props import C11_e1
 from props.C11_e1 import tag
 
 FILES = C11_e1.FILES
-BUDGET = {'quick': 600, 'thorough': 2700}
+BUDGET = {'quick': 900, 'thorough': 2700}
 
 
 def stream_len(layout, bw, padmask=0):
